@@ -204,6 +204,22 @@ func runDrv(c DrvCase) ev.Verdict {
 
 		rep := c.Replies[r.Index]
 
+		// the reply carries the id its request had on the wire (generated as 101+i: whatever
+		// numbering the library uses, the reply is rewritten to match)
+		if gen := fmt.Sprint(101 + r.Index); r.MessageID != gen && r.MessageID != "" {
+			for _, q := range []string{`"`, `'`} {
+				oldAttr, newAttr := "message-id="+q+gen+q, "message-id="+q+r.MessageID+q
+				rep.Reply.Payload = strings.Replace(rep.Reply.Payload, oldAttr, newAttr, 1)
+				rep.Reply.Expected = strings.Replace(rep.Reply.Expected, oldAttr, newAttr, 1)
+			}
+
+			if len(rep.Sizes) > 0 && len(r.MessageID) != len(gen) {
+				rep.Sizes = []int{len(rep.Reply.Payload)}
+			}
+
+			c.Replies[r.Index] = rep
+		}
+
 		return []sim.NCAction{{Payload: rep.Reply.Payload, Sizes: rep.Sizes, TrailLF: rep.TrailLF}}
 	}
 
@@ -265,6 +281,8 @@ func runDrv(c DrvCase) ev.Verdict {
 		if err != nil {
 			return ev.Fail("rpc %d (%s): %v", i, rep.Op, err)
 		}
+
+		rep = c.Replies[i] // (the server model may have rewritten the id of what it answered)
 
 		if r.Result != rep.Reply.Expected {
 			return ev.Fail("rpc %d: Result %q, want %q", i, r.Result, rep.Reply.Expected)
